@@ -352,6 +352,10 @@ def c_stmt(s):
         return "(SEmitF %s)" % c_list("(%s, %s)" % (cb(b[1]), c_expr((b[0], b[1]))) for b in s[1])
     if k == "emitp":
         return "(SEmitP %s %s %s)" % (cb(s[1][1]), c_expr((s[1][0], s[1][1])), c_list(cb(x) for x in s[2]))
+    if k == "emitlashed" and len(s[2]) == 1:
+        # one emittable in parentheses is not lashed (buildEmitXStatementNode)
+        b = s[2][0]
+        return c_stmt(("emitp", b, [])) if s[1] else c_stmt(("emitnamed", b[1], (b[0], b[1]), []))
     if k == "emitlashed":
         return "(SEmitLashed %s %s)" % (coq_bool(s[1]), c_list("(%s, %s)" % (cb(b[1]), c_expr((b[0], b[1]))) for b in s[2]))
     if k == "printn":
